@@ -11,7 +11,7 @@ contents of pickles, scipy's shape conventions for .mat files.
 """
 import ast
 
-from ..loader import AnalysisError, norm, walk_no_nested, call_name, const_value
+from ..loader import parents_map, AnalysisError, norm, walk_no_nested, call_name, const_value
 from .. import apiexist
 from . import c05
 
@@ -62,6 +62,54 @@ def check(run, prog, tier):
     run.rule("C18-I", "exported arrays can hold what is put into them (axis next to data), and what a format cannot represent "
                       "(the rank of one-dimensional data in a Matlab file) is stored with the data and restored", minimum=4)
     rule_I(run, prog)
+    run.rule("C18-K", "what is imported belongs to the object: arrays are read from the file into memory, never mapped onto it "
+                      "(a mapped array changes with the file, and writes into it rewrite the file)", minimum=8)
+    rule_K(run, prog)
+
+
+def rule_K(run, prog):
+    """'Exporting ... and importing it returns the same values': also at the second import, and after the object of the
+    first import was worked with.  numpy.load(..., mmap_mode=...) (any mode: 'r+' writes through, 'r' and 'c' follow the
+    file when it is written again), numpy.memmap, open_memmap and numpy.fromfile-with-offset views tie the array to the
+    file.  Every reading call in the package is of the copying kind."""
+    rid = "C18-K"
+    n = 0
+    READ = ("load", "loadtxt", "loadmat", "genfromtxt", "fromfile")
+    for f in prog.all_functions():
+        if ".tests." in f.qualname or ".wizard." in f.qualname:
+            continue
+        for c in walk_no_nested(f.node):
+            if not isinstance(c, ast.Call):
+                continue
+            cn = (call_name(c) or "")
+            last = cn.split(".")[-1]
+            recv = norm(c.func.value) if isinstance(c.func, ast.Attribute) else ""
+            if last in ("memmap", "open_memmap"):
+                n += 1
+                prog.consulted.add(f.relpath)
+                run.obligation(rid, f.short, False, key="mapped:" + norm(c)[:40],
+                               message="%s maps a file into memory (%s): the array and the file are one storage" % (f.short, norm(c)[:60]),
+                               loc=f.loc(c))
+            elif last in READ and recv in ("numpy", "np", "io", "scipy.io", "sio"):
+                n += 1
+                prog.consulted.add(f.relpath)
+                mm = [k for k in c.keywords if k.arg == "mmap_mode" and not (isinstance(k.value, ast.Constant) and k.value.value is None)]
+                if last == "load" and len(c.args) >= 2 and not (isinstance(c.args[1], ast.Constant) and c.args[1].value is None):
+                    mm = mm or [c.args[1]]
+                if mm:
+                    par = parents_map(f.node).get(c)
+                    if isinstance(par, ast.Call) and (call_name(par) or "").split(".")[-1] == "array" and par.args and par.args[0] is c \
+                            and not any(k.arg == "copy" for k in par.keywords):
+                        mm = []     # numpy.array(<map>) copies out of the map
+                    if isinstance(par, ast.Attribute) and par.attr == "copy":
+                        mm = []
+                run.obligation(rid, f.short, not mm, key="read-into-memory:" + norm(c)[:40],
+                               message="%s reads with `%s`: the array handed to the object is a memory map of the file, not a copy - "
+                                       "in-place work on the object rewrites the file (a second import returns changed values), and "
+                                       "writing the file again changes every object that imported it" % (f.short, norm(c)[:70]),
+                               loc=f.loc(c), sample={"call": norm(c)[:70]})
+    if n < 8:
+        raise AnalysisError("C18-K: only %d reading calls found in the package (10 confirmed)" % n)
 
 
 def rule_I(run, prog):
